@@ -15,7 +15,9 @@ Inductive val :=
 | VStr (s : string)
 | VBool (b : bool)
 | VNum (n : N)
-| VMap (m : list (string * val)).
+| VMap (m : list (string * val))
+| VNone                                  (* none / null *)
+| VList (n : nat).                       (* a sequence of n elements (only its emptiness matters here) *)
 
 Definition store := list (string * val).     (* first hit wins: prepending shadows *)
 
@@ -54,6 +56,8 @@ Definition truthy (v : val) : bool :=
   | VBool b => b
   | VNum n => negb (N.eqb n 0)
   | VMap m => match m with [] => false | _ => true end
+  | VNone => false
+  | VList n => match n with O => false | _ => true end
   end.
 
 Definition val_eqb (a b : val) : bool :=
@@ -98,6 +102,8 @@ Definition show_val (v : val) : option string :=
   | VBool false => Some "false"
   | VNum n => Some (N_to_text n)
   | VMap _ => Some "{..}"               (* never generated *)
+  | VNone => Some "none"
+  | VList _ => Some "[..]"              (* never generated *)
   end.
 
 Fixpoint render (st : store) (t : template) : option string :=
@@ -115,6 +121,7 @@ Inductive modcall :=
 | MDebugMsg (t : template)
 | MDebugVar (p : list string)
 | MSetVars (kvs : list (string * template))
+| MSetLit (k : string) (v : val)                       (* set_vars with one typed YAML literal: [], {}, ~, 0, "", ... *)
 | MAssert (es : list expr)
 | MCommand (label : string) (out : string) (rc : N)    (* sh: printf out; echo label >> log; exit rc *)
 | MCopy (label : string)                               (* copy content=label to ROOT/out/label *)
@@ -255,6 +262,8 @@ Section exec.
             MOk [] {| m_changed := false; m_output := None; m_extra := [];
                       m_vars := fold_left (fun acc '(k, v) => (k, VStr v) :: acc) l st |}
         end
+    | MSetLit k v =>
+        MOk [] {| m_changed := false; m_output := None; m_extra := []; m_vars := (k, v) :: st |}
     | MAssert es => match assert_all seen es with
                     | MOk evs r => MOk evs {| m_changed := false; m_output := None; m_extra := []; m_vars := st |}
                     | x => x
